@@ -27,6 +27,7 @@ THEOREMS = [
     "equalise_swap_safe",
     "swap_spec",
     "convert_carries_cutoff",
+    "increaseCutoffTo_monotone",
     "pair_action_invariant",
     "pair_history_invariant",
 ]
@@ -45,6 +46,10 @@ RULE = ("random TFIM graphs (2..6 spins, chain/ring/chord, J of both signs, dyad
         "single-replica timestep and serial/rayon tempering steps (accepted and rejected swaps, steps right after a growing step counted); "
         "oracle on every replica after every call (cutoff never decreases, >= max of previous cutoffs after a tempering step, margin, "
         "container length <= cutoff and = the cutoff the sweep used). "
+        "Manual cutoff API calls between the steps of the step scenarios, both samplers: Qmc::increase_cutoff_to(c) with c below / equal / "
+        "above the current cutoff (kind `inccut`), set_cutoff / trait set_op_cutoff upwards only (kind `setcut`; lowering through the raw "
+        "setters is the caller's own doing, outside the property); oracle right after the call: cutoff == max(previous, c), container padded "
+        "and never shrunk, n unchanged and <= cutoff. "
         "After every real step one `step` case (prev cutoff, prev container length, n -> cutoff, container length) and one `sweep` "
         "case (slot occupancy before/after) are compared with the model rule. Non-trivial = the cutoff grew or n > 0 "
         "(tempering: replicas had different cutoffs); distinct = distinct case line.")
